@@ -414,8 +414,9 @@ def run(ck):
         ck.extra["histories_distinguishing_the_pre_repair_behaviour"] = sum(1 for x, y in zip(a, b) if x != y)
     except vlib.Broken as br:
         ck.broken.append(br)
-    # known finding: the right is checked on CanonicalPath(url), the registry serves CanonicalPath of that; they differ
-    # when a blank-edged dot segment is left ("/a/. /x/.." -> "/a/. " -> "/a")
+    # regression (repaired in utils.CanonicalPath, 1c2de2b): the right was checked on CanonicalPath(url), the registry served
+    # CanonicalPath of that; they differed when a blank-edged dot segment was left ("/a/. /x/.." -> "/a/. " -> "/a").
+    # Judged by the strict oracle (C11_model_passes_strict).
     ck.stream("unsettled-path", UNSETTLED, "C11_run", "C11", "C11_ok_strict",
               sig=lambda c, e, o: "path-check-differs-from-served:blank-dot-segment")
     # D24: the predicting function replayed on the implementation (tokens must not be MD5 of the id counter)
